@@ -89,7 +89,7 @@ class Harness(Proc):
 
     def __init__(self, feature=None, timeout_ms=4000):
         tdir = "target_a26" if feature else "target"
-        exe = os.path.join(HARNESS, tdir, "debug", "vh")
+        exe = os.environ.get("VH_EXE_A26" if feature else "VH_EXE") or os.path.join(HARNESS, tdir, "debug", "vh")   # override: coverage-instrumented build (tools/coverage.sh)
         os.makedirs(os.path.join(OUT, "tmp"), exist_ok=True)
         super().__init__([exe], env={"VH_TIMEOUT_MS": str(timeout_ms), "VH_TMP": os.path.join(OUT, "tmp")})
         self.feature = feature
